@@ -84,7 +84,7 @@ class Driver:
         if had_cfg and any(x[0] == "fw" and 0xC3 not in dict(x[1]) for x in self.m_comps[:cfg_pos]):
             self.untyped_before_cfg = True
         try:
-            self.f.set_config(c, list(extra))
+            self.f.set_config(c, iter(list(extra)) if len(c) % 2 else list(extra))  # Iterable[bytes]: one-shot iterators too
         except Exception as e:
             raise Violation("set_config raised %s: %s" % (type(e).__name__, e))
         self.n_set += 1
